@@ -17,6 +17,7 @@ import (
 	"encoding/binary"
 	"encoding/hex"
 	"encoding/json"
+	"errors"
 	"encoding/pem"
 	"fmt"
 	"io"
@@ -563,6 +564,7 @@ type logRec struct {
 	Body   string `json:"body"`
 	Base   int    `json:"base"`
 	Resp   string `json:"resp"`
+	Complete bool `json:"complete"`
 }
 
 type tBeh struct {
@@ -602,6 +604,7 @@ type front struct {
 	cur      *caseLog
 	drainers sync.WaitGroup
 	slow     time.Duration
+	tag      string // when set, only requests whose filename starts with it belong to the current case
 	caPEM    string
 	protos   map[string]int
 }
@@ -642,6 +645,13 @@ func (f *front) ServeHTTP(w http.ResponseWriter, req *http.Request) {
 		f.protos = map[string]int{}
 	}
 	f.protos[req.Proto]++
+	if fn := req.URL.Query().Get("filename"); f.tag != "" && fn != f.tag && !strings.HasPrefix(fn, f.tag+".") {
+		// a request of an earlier case whose client gave up before the server had seen it
+		f.mu.Unlock()
+		io.Copy(io.Discard, req.Body)
+		http.Error(w, "late", http.StatusServiceUnavailable)
+		return
+	}
 	cs := f.cur
 	k := len(cs.attempts)
 	resp := "ok"
@@ -781,7 +791,7 @@ func (f *front) arm(nb int, down []int, offered string, script []string) {
 		}
 	}
 	f.mu.Lock()
-	f.hosts, f.offered, f.script, f.cur = hosts, offered, script, &caseLog{}
+	f.hosts, f.offered, f.script, f.cur, f.tag = hosts, offered, script, &caseLog{}, ""
 	f.mu.Unlock()
 }
 
@@ -850,6 +860,61 @@ func (gr *gatedReader) Read(p []byte) (int, error) {
 
 var useGate *gate
 
+// faultTransformer: the source stream of one chosen attempt fails with an I/O error after `at` bytes (a disk or NFS read
+// error in the middle of the upload) - the specification's Respond("srcfault")
+type faultTransformer struct {
+	signers.Transformer
+	ft *fault
+}
+
+type fault struct {
+	mu      sync.Mutex
+	n       int
+	attempt int   // which GetReader call fails (1 = the harness's own pass)
+	at      int64 // after how many bytes
+	hit     bool
+}
+
+var errSourceFault = errors.New("read /verif/source: input/output error")
+
+func (t faultTransformer) GetReader() (io.Reader, error) {
+	r, err := t.Transformer.GetReader()
+	if err != nil {
+		return nil, err
+	}
+	t.ft.mu.Lock()
+	t.ft.n++
+	k := t.ft.n
+	t.ft.mu.Unlock()
+	if k != t.ft.attempt {
+		return r, nil
+	}
+	return &faultReader{r: r, left: t.ft.at, ft: t.ft}, nil
+}
+
+type faultReader struct {
+	r    io.Reader
+	left int64
+	ft   *fault
+}
+
+func (fr *faultReader) Read(p []byte) (int, error) {
+	if fr.left <= 0 {
+		fr.ft.mu.Lock()
+		fr.ft.hit = true
+		fr.ft.mu.Unlock()
+		return 0, errSourceFault
+	}
+	if int64(len(p)) > fr.left {
+		p = p[:fr.left]
+	}
+	n, err := fr.r.Read(p)
+	fr.left -= int64(n)
+	return n, err
+}
+
+var useFault *fault
+
 // remoteSign mirrors cmdline/remotecmd/signcmd.go with the real CallRemote
 func (e *env) remoteSign(ti *pipelinex.TypeInfo, in string) (out string, h0 string, err error) {
 	out = outPath(ti, in)
@@ -874,9 +939,13 @@ func (e *env) remoteSign(ti *pipelinex.TypeInfo, in string) (out string, h0 stri
 	if err != nil {
 		return out, "", err
 	}
-	h0, _, err = hashStream(s0)
+	h0, n0, err := hashStream(s0)
 	if err != nil {
 		return out, "", err
+	}
+	if useFault != nil {
+		useFault.n, useFault.at = 1, n0/2
+		tr = faultTransformer{tr, useFault}
 	}
 	q.Set("key", "rsa2048")
 	q.Set("filename", filepath.Base(in))
@@ -920,6 +989,16 @@ func quiet(fn func()) {
 	fn()
 }
 
+// faultAt: the 1-based attempt whose source stream fails in this behaviour, 0 if none
+func faultAt(b tBeh) int {
+	for k, l := range b.Log {
+		if l.Resp == "srcfault" {
+			return k + 1
+		}
+	}
+	return 0
+}
+
 // Replay: vh transport-replay <beh.jsonl> [max]
 func Replay(args []string) {
 	r := res.New()
@@ -932,7 +1011,19 @@ func Replay(args []string) {
 	rnd := rand.New(rand.NewSource(seed()))
 	if max < len(behs) {
 		rnd.Shuffle(len(behs), func(i, j int) { behs[i], behs[j] = behs[j], behs[i] })
-		behs = behs[:max]
+		// every sample holds source-fault behaviours for each advertised encoding list
+		quota := map[string]int{}
+		var first, rest []tBeh
+		for _, b := range behs {
+			if faultAt(b) > 0 && quota[b.Offered] < 8 {
+				quota[b.Offered]++
+				first = append(first, b)
+			} else {
+				rest = append(rest, b)
+			}
+		}
+		behs = append(first, rest...)[:max]
+		rnd.Shuffle(len(behs), func(i, j int) { behs[i], behs[j] = behs[j], behs[i] })
 	}
 	e := newEnv(r)
 	defer e.close()
@@ -962,17 +1053,33 @@ func Replay(args []string) {
 		}
 		var script []string
 		for _, l := range b.Log {
-			if l.Resp != "refused" {
+			if l.Resp == "srcfault" {
+				script = append(script, "ok") // the server itself is healthy: it signs whatever complete body reaches it
+			} else if l.Resp != "refused" {
 				script = append(script, l.Resp)
 			}
 		}
+		if fa := faultAt(b); fa > 0 {
+			useFault = &fault{attempt: fa + 1}
+			r.Count("source_fault_behaviours", 1)
+		}
 		f.arm(b.Nb, b.Down, b.Offered, script)
+		f.mu.Lock()
+		f.tag = fmt.Sprintf("tr-%d", ci)
+		f.mu.Unlock()
 		e.setRemote(f, b.Retries)
 		in := e.fixture(ti, fmt.Sprintf("tr-%d", ci), 0)
 		var out, h0 string
 		var err error
 		quiet(func() { out, h0, err = e.remoteSign(ti, in) })
 		got := f.taken()
+		if useFault != nil {
+			// the handler of the aborted request may still be reading: wait until it has seen the end of its body
+			for w := 0; w < 500 && ((len(got) < len(script) && w < 30) || (len(got) > 0 && got[len(got)-1].Err == "" && got[len(got)-1].Sum == "")); w++ {
+				time.Sleep(10 * time.Millisecond)
+				got = f.taken()
+			}
+		}
 		key := map[string]string{"engine": "transport", "type": tn}
 		rep := map[string]any{"behaviour": b, "type": tn, "alt": useAlt}
 		r.Eval(len(b.Log) > 1)
@@ -984,13 +1091,18 @@ func Replay(args []string) {
 			}
 		}
 		bad := false
+		if useFault != nil && len(got) == len(want)-1 && err != nil {
+			// the client gave up before the aborted request reached the server at all
+			want = want[:len(want)-1]
+			r.Count("source_fault_request_never_arrived", 1)
+		}
 		if len(got) != len(want) {
 			key["kind"] = "attempts-differ"
 			r.Fail(key, rep, "%s: servers saw %d requests, the specification's behaviour has %d (offered=%s retries=%d down=%v script=%v); observed %+v, client error: %v", tn, len(got), len(want), b.Offered, b.Retries, b.Down, script, got, err)
 			bad = true
 		} else {
 			for k := range got {
-				if got[k].Resp == "ok" && got[k].Err == "" && got[k].RespCE != ceOf[want[k].RespEnc] {
+				if want[k].Resp != "srcfault" && got[k].Resp == "ok" && got[k].Err == "" && got[k].RespCE != ceOf[want[k].RespEnc] {
 					key["kind"] = "response-encoding-differs"
 					r.Fail(key, rep, "%s: the server answered request %d (Accept-Encoding %q) with Content-Encoding %q; the specification has %q", tn, k+1, got[k].AE, got[k].RespCE, ceOf[want[k].RespEnc])
 					bad = true
@@ -1007,6 +1119,20 @@ func Replay(args []string) {
 		// (2) every completely received body is the transform of the input
 		for k, a := range got {
 			if a.Resp == "early503" {
+				continue
+			}
+			if k < len(want) && want[k].Resp == "srcfault" {
+				// (2') a body whose source failed never reaches the server as a complete stream
+				if useFault == nil || !useFault.hit {
+					r.Note("%s: the source fault of attempt %d was never reached", tn, k+1)
+					r.Count("source_fault_not_reached", 1)
+				} else if a.Err == "" {
+					key["kind"] = "source-fault-swallowed"
+					r.Fail(key, rep, "%s: the source stream failed after %d bytes during request %d (Content-Encoding %q), yet the server read a well-formed, complete body of %d bytes (sha256 %.12s; the whole transform is %.12s) and the client reports %v", tn, useFault.at, k+1, a.CE, a.Len, a.Sum, h0, err)
+					bad = true
+				} else {
+					r.Count("source_fault_aborted", 1)
+				}
 				continue
 			}
 			if a.Err != "" || a.Sum != h0 {
@@ -1036,6 +1162,7 @@ func Replay(args []string) {
 				r.Count("remote_error_as_specified", 1)
 			}
 		}
+		useFault = nil
 		os.Remove(out)
 		os.Remove(in)
 	}
